@@ -94,6 +94,14 @@ func handleHTTP1ClientStream(b *bufio.Reader, progress *api.ReadProgress, tcpID 
 	var body []byte
 	body, err = io.ReadAll(req.Body)
 	req.Body = io.NopCloser(bytes.NewBuffer(body)) // rewind
+	if len(req.TransferEncoding) > 0 {
+		// net/http has removed the chunked framing from the body that was just read. Describe the
+		// message as it is now, otherwise the HAR conversion chunks the reported body again
+		// ("abc" came out as "3\r\nabc\r\n0\r\n"). The header field itself stays reported.
+		req.Header["Transfer-Encoding"] = req.TransferEncoding
+		req.TransferEncoding = nil
+		req.ContentLength = int64(len(body))
+	}
 
 	ident := fmt.Sprintf(
 		"%s_%s_%s_%s_%d_%s",
